@@ -69,6 +69,9 @@ def case_strategy():
             "roots": st.lists(element_strategy(), min_size=1, max_size=2),
             "indent": st.integers(0, 5),
             "eol": st.sampled_from(EOLS),
+            # history: the strings of this tree were rendered earlier in this process in the *other* role
+            # (attribute values as text children and the other way round)
+            "prior": st.sampled_from([False, False, True]),
             "edits": st.lists(
                 st.one_of(
                     st.tuples(st.sampled_from(["pop", "del", "popitem", "clear"]), st.integers(0, 5)).map(list),
@@ -181,11 +184,32 @@ def _stats(r, depth=1):
     return n, void, meta_attr, meta_text, d
 
 
+def _strings(nodes, out):
+    for n in nodes:
+        if n["k"] == "tag":
+            for a in n["attrs"]:
+                if isinstance(a[1], str):
+                    out.append((a[1], "attr"))
+            _strings(n["kids"], out)
+        elif n["k"] == "text":
+            out.append((n["s"], "text"))
+    return out
+
+
 def body_tree(case, note):
     import htmltools
 
     roots = case["roots"]
     indent, eol = case["indent"], case["eol"]
+    if case.get("prior"):
+        for v, role in _strings(roots, []):
+            if role == "attr":
+                htmltools.Tag("p", v).get_html_string()
+                htmltools.Tag("p", v, "x").get_html_string()
+                htmltools.html_escape(v)
+            else:
+                htmltools.Tag("p", title=v).get_html_string()
+                htmltools.html_escape(v, attr=True)
     objs = [build(r) for r in roots]
     exp_each = []
     for r, o in zip(roots, objs):
@@ -245,6 +269,7 @@ def body_tree(case, note):
         "depth>=3" if d >= 3 else "",
         "multi-root" if len(roots) > 1 else "",
         "re-rendered-after-edit" if edited else "",
+        "strings-rendered-earlier-in-the-other-role" if case.get("prior") and (ma or mt) else "",
     )
 
 
@@ -382,7 +407,7 @@ CLAUSES = [
         quick=1500,
         thorough=20000,
         shards_quick=4,
-        required=("void", "attr-metachar", "text-metachar", "depth>=3", "re-rendered-after-edit"),
+        required=("void", "attr-metachar", "text-metachar", "depth>=3", "re-rendered-after-edit", "strings-rendered-earlier-in-the-other-role"),
         rule="see RULE",
         fuzz=100000,
     ),
